@@ -39,6 +39,10 @@ NOTES = {
     "0921": "a quoted-string that contains a quoted-pair becomes unparsable: that offer line is skipped and compression is not negotiated, which the properties allow ('only if'); agreement holds",
     "0923": "the unescaped VALUE of an extension parameter is never used", "0930": "as 0923", "0929": "as 0923 (rest of the element after a quoted value with escapes)",
     "0927": "as 0921",
+    "0575": "equivalent for the properties: only byte 31 passes unscrubbed into a response header value (not CR/LF, no response splitting)",
+    "0576": "equivalent: a space is replaced by a space",
+    "0653": "gap (C14): exactly one Dialer.Subprotocols entry plus a caller Sec-Websocket-Protocol header; handed to the dial family (programs {nil, 1, 2 entries} x {caller header absent, present})",
+    "0256": "as 0218 (ReadFrom on an ended writer)",
     "0524": "equivalent: the hijacked reader is never reused; the wrap path loses nothing either (C17)",
     "0126": "no property: timer.Stop() only releases the timer earlier",
     "0166": "equivalent: the next beginMessage closes the stale writer again, which only returns errWriteClosed (ignored)",
@@ -86,6 +90,12 @@ for k in surv:
     v = res.get(k, "NOT-RUN")
     c[re.sub(r"\(.*", "", v)] += 1
 out.append("Survivors run against the relevant quick checks so far: detected %d, undetected %d, in code no listed property talks about (error texts, httptrace callbacks) %d, not run yet %d.\n" % (c["DETECTED"], c["UNDETECTED"], c["NO-PROPERTY"], c["NOT-RUN"]))
+out.append("The first pass ran at an early state of the checks (and assigned the util.go helpers to the wrong owners); a second pass re-ran the "
+           "survivors that touch behaviour a property talks about against the final checks (run/sel2.log, run/rerun2.log). Gaps this run exposed and that were closed: "
+           "`0367` (read limit 1 not enforced: C06 now has L = 1), `1042` (a closed compressed writer keeps its deflater: stale-writer operation WRO), `1050` `1075` `1076` "
+           "(errors of the final flush / of the JSON encoder swallowed: fault enumeration over WriteJSON and compressed messages, WJB), the 24 `isTokenOctet` table flips "
+           "(token alphabet of C12), `0653` (handed to the dial family). Every remaining undetected survivor is explained below: equivalent for the listed properties "
+           "(performance, dead code, error texts, io.Writer details) or outside their domain.\n")
 out.append("\n## Undetected survivors and why\n")
 for k in surv:
     if res.get(k) == "UNDETECTED":
